@@ -100,6 +100,7 @@ for k_, tiers in [(1, QT), (2, QT), (3, T)]:
     K("C03", "c03_ringitem_delete_k%d" % k_, "c03", [RI + "delete_block", RI + "add_block"], "RingItem with exactly %d entries (symbolic ids and hash byte, duplicates allowed), every lc_pos in {None, Some(i<k)}, every (id,hash) to delete" % k_, covers=2, cbmc_args=M34, tiers=tiers, timeout=1500)
 M("C03", "c03_m_ringitem_reorg", [RI + "on_chain_reorganization"], "RingItem with 0..=3 entries, 32-byte symbolic hashes, lc symbolic")
 M("C03", "c03_m_blockring_reorg", [BR + "on_chain_reorganization", RI + "on_chain_reorganization"], "ring of 4 slots holding 2/1/1/1 and 1/2/1/1 entries, every id >= 1, hash, lc, per-slot designation and tip pointer")
+M("C03", "c03_m_blockring_delete", ["BlockRing::delete_block", "RingItem::delete_block"], "ring of 4 slots (2/1/1/1 and 1/1/2/1 entries), ids arbitrary u64 consistent with their slot (so also >= ring size), hashes and designations symbolic", covers=2)
 M("C03", "c03_m_tx_wind_unwind", ["Transaction::on_chain_reorganization", "Slip::on_chain_reorganization"], "1..=2 inputs x 1..=2 outputs (thorough 0..=3 each), amounts (0 included) and 59-byte keys symbolic, one unrelated utxoset entry; wind and unwind")
 M("C03", "c03_unwind_full_before_revert", ["Blockchain::validate", "Blockchain::wind_chain", "Blockchain::unwind_chain"], "segments (2,1) and (3,2), every validity pattern; event order on every path", covers=2)
 M("C03", "c03_reorg_sequence", ["Blockchain::validate", "Blockchain::wind_chain", "Blockchain::unwind_chain"], "same universe as c04_machine", covers=4)
@@ -184,6 +185,7 @@ PROPERTY_ASSUMPTIONS["C04"] = [
     "sizes: |new| 1..=3, |old| 0..=2 with |new| > |old| (thorough: up to 4 / 3); step bound 2(|new|+|old|)+2 loop rounds",
     "wallet slips, stored blocks and the full observable snapshot after a real failed reorganisation are outside the claim",
 ]
+M("C04", "c04_index_cleanup", ["BlockRing::delete_block", "RingItem::delete_block"], "same as c03_m_blockring_delete: rejecting a block removes exactly its (id, hash) from the chain index, for any id", covers=2)
 M("C04", "c04_machine", ["Blockchain::validate", "Blockchain::wind_chain", "Blockchain::unwind_chain"], "see assumptions; one class per (|new|, |old|, validity pattern forced by the path)", covers=4)
 
 # ============================================================================== C16
@@ -213,6 +215,17 @@ PROPERTY_ASSUMPTIONS["C17"] = [
 ]
 M("C17", "c17_response_step", ["saito_core::core::consensus::peers::peer::Peer::handle_handshake_response (async body)", "Peer::mark_as_disconnected", "Version::is_set / is_same_minor_version"],
   "every path of the body (about 200) from a symbolic Peer: status in {Disconnected, Connecting, Connected}, challenge / key / static config present or absent; five clauses per returning path", covers=1)
+
+# ============================================================================== C07
+PROPERTY_ASSUMPTIONS["C07"] = [
+    "producer and validator call the same Block::generate_consensus_values; this claim is conditional on it returning the same ConsensusValues cv on both sides (its determinism over chain state and the transaction set - the fee lottery, ATR selection, smoothing arithmetic - is outside the claim); cv is one fully symbolic struct shared by both explorations",
+    "facts about cv established inside generate_consensus_values and assumed here: total_fees = total_fees_new + total_fees_atr, gt_index is Some exactly when a golden ticket is supplied, no issuance transaction, a fee transaction only with a golden ticket, amounts within the token supply, treasury payout covers the ATR payout",
+    "the metadata generate() derives from the transactions (hash, merkle root, total work, rebroadcast counters, type flags) and the unmodelled environment answers are existentially quantified: the obligation fails only when NO choice of them lets validate accept, i.e. a header field alone forces the rejection; signature, per-transaction validation, routing-work and golden-ticket verdicts are taken favourable (they are C06/C08/C13's subjects)",
+    "a second node instance, mempool contents, chain depth/ATR wrap, and Block::create's transaction assembly after the header assignments are outside the claim",
+]
+M("C07", "c07_header_agreement", ["Block::create (async body, up to the end of the header assignments)", "Block::validate (async body)", "Block::new"],
+  "every value of the ~40 consensus-value fields and of the parent's header; parent indexed or not; golden ticket supplied or not (4 built blocks x about 25 validate paths each); vacuity twin (one header field off by one) must be rejected", covers=1)
+M("C07", "c07_producer_work_gate", ["Mempool::can_bundle_block (async body)"], "all paths of the body; latest block present/absent, ticket supplied or not, routing work / timestamps / burn fee symbolic u64; BurnFee and the golden-ticket count rule uninterpreted (argument roles checked)", covers=1)
 
 # ============================================================================== C18
 PROPERTY_ASSUMPTIONS["C18"] = [
